@@ -5,7 +5,7 @@ CONSTANTS
   MaxLog = 2
   AllLen = 4
   AllMaxLog = 2
-  PolyAllLen = 3
+  PolyAllLen = 2
   MaxThreads = 17
   SchedThreads = {1,2,3,4,5,6,7,8,9,10,11,12,13,14,15,16,17}
   Fams = {"fft", "twid", "poly", "binv", "closed", "bary"}
